@@ -1,18 +1,27 @@
 # -*- coding: utf-8 -*-
 """C01 - Cell values are faithful tabulations of the survey behind the response.
 
-Obligations: coq/Props/C01.v  (Spec/Survey.v, Model/CubeCounts.v, Proofs/CubeCountsProofs.v).
+Obligations: coq/Props/C01.v  (Spec/Survey.v, Model/CubeCounts.v, Model/NumArray.v, Model/DimType.v,
+Proofs/CubeCountsProofs.v, Proofs/NumArrayProofs.v, Proofs/DimTypeProofs.v).
 
-Correspondence, on random respondent-level surveys (harness/props/cube_util.py):
+Correspondence, on random respondent-level surveys (harness/props/cube_util.py, c01_shapes.py):
   (a) Model/CubeCounts.v evaluated inside Coq on the JSON payload (dimensions + flat data)
       vs. the implementation's public outputs: _Slice/_Strand .counts, .unweighted_counts,
-      .means/.sums/.stddev/.medians, Cube.counts / unweighted_counts (valid tensor);
+      .means/.sums/.stddev/.medians, _Nub.means/.unweighted_count, Cube.counts /
+      unweighted_counts / means / sums / stddev / medians (valid tensor);
   (b) the respondent-level oracle (number of respondents who belong to row AND column
-      element, computed from the answers) vs. the same public outputs;
+      element; mean / sum / stddev / median / valid count of a numeric(-array) variable over the
+      respondents of the cell, computed from the answers) vs. the same public outputs;
   (c) Spec/Survey.v `tabulate` evaluated inside Coq on the survey literal vs. the payload
-      the generator emitted (the two tabulators check each other).
+      the generator emitted (the two tabulators check each other);
+  (d) Model/DimType.v (the dimension-type rule) evaluated inside Coq on what the response says
+      vs. cube.dimension_types, and vs. the kinds of the survey's variables.
 Because Props/C01.v proves model(tabulate S) = respondent-level count, (a)+(c) make every
 disagreement a concrete failing input of the property; (b) is the direct search oracle.
+
+Case families: 'std' (cube_util.gen_case: every Cat/Mr/Arr class pair, 1-D..3-D, CA-as-0th),
+'numarr' (numeric arrays alone / by cat / by MR / by cat x cat / three grouping axes), 'nub'
+(no dimension), 'typed' (dimensions that stress the type detection) -- see c01_shapes.py.
 """
 import json
 import random
@@ -21,9 +30,20 @@ import numpy as np
 
 from harness import core, gen, impl
 from harness.props import cube_util as cu
+from harness.props import c01_shapes as sh
 
 PID = "C01"
 NUM_PUB = list(cu.NUMERIC_NAMES.values())
+CUBE_NAMES = ["counts", "unweighted_counts"] + NUM_PUB
+FOUR_AXES_CLASSES = ["NumArrxCatxMr", "NumArrxMrxCat", "NumArrxMrxMr"]
+
+
+def family(case):
+    return case.get("family", "std")
+
+
+def finish_case(case):
+    return sh.finish_case(case)
 
 
 def impl_cube_level(case):
@@ -31,21 +51,57 @@ def impl_cube_level(case):
 
     def f():
         c = impl.cube(case["response"], cube_idx=cube_idx)
-        return {"counts": impl.tolist(c.counts), "unweighted_counts": impl.tolist(c.unweighted_counts)}
+        out = {"dimension_types": [t.name for t in c.dimension_types]}
+        for n in CUBE_NAMES:
+            r = impl.get(c, n)
+            out[n] = (r[0], impl.tolist(r[1])) if r[0] == "ok" else r
+        return out
 
     return impl.guarded(f)
 
 
+def impl_nub(case):
+    res = impl.guarded(lambda: impl.cube(case["response"]).partitions)
+    if res[0] != "ok":
+        return {"error": res}
+    parts = res[1]
+    out = {"parts": [], "types": [type(p).__name__ for p in parts]}
+    for p in parts:
+        d = {}
+        for n in ("means", "unweighted_count"):
+            r = impl.get(p, n)
+            d[n] = (r[0], impl.tolist(r[1])) if r[0] == "ok" else r
+        out["parts"].append(d)
+    return out
+
+
+def cube_numeric_terms(case, ds):
+    meas = case["response"]["result"]["measures"]
+    out = []
+    for m, pub in cu.NUMERIC_NAMES.items():
+        if m in meas:
+            out.append(("valid:" + pub, "r_valid_tensor %s %s" % (ds, cu.g_data(meas[m]["data"]))))
+    return out
+
+
 def build(case, with_tab):
-    io = cu.run_impl(case, cu.SLICE_COUNT_NAMES + NUM_PUB, cu.STRAND_COUNT_NAMES + NUM_PUB)
-    io["cube"] = impl_cube_level(case)
-    terms = cu.model_terms(case)
+    fam = family(case)
     ds = cu.g_dims(case["_axes"])
     pay = cu.g_payload(case["response"])
+    if fam == "nub":
+        io = impl_nub(case)
+        terms = []
+    else:
+        io = cu.run_impl(case, cu.SLICE_COUNT_NAMES + NUM_PUB, cu.STRAND_COUNT_NAMES + NUM_PUB)
+        terms = cu.model_terms(case)
+    io["cube"] = impl_cube_level(case)
     terms.append(("valid:counts", "r_valid_tensor %s (cwm_payload %s)" % (ds, pay)))
     terms.append(("valid:unweighted_counts",
                   "r_valid_tensor %s (unweighted_counts_payload %s)" % (ds, pay)))
-    if with_tab:
+    if fam in ("nub", "numarr") or case["k"] % 4 == 0:
+        terms.extend(cube_numeric_terms(case, ds))
+    terms.append(("types", sh.types_term(case)))
+    if with_tab and fam in ("std", "typed"):
         terms.append(("tabulate", cu.tabulate_term(case)))
     return io, terms
 
@@ -55,20 +111,42 @@ def has_valid_counts(case):
     return "valid_count_unweighted" in m or "valid_count_weighted" in m
 
 
+NA_KEY = {"means": "mean", "sums": "sum", "stddev": "stddev", "medians": "median"}
+
+
+def numarr_count_key(case, name):
+    m = case["response"]["result"]["measures"]
+    if name == "counts" and "valid_count_weighted" in m:
+        return "vcw"
+    return "vcu"
+
+
+def nanify(x):
+    if isinstance(x, list):
+        return [nanify(v) for v in x]
+    return "nan" if x is None else x
+
+
 def compare(case, io, terms, results):
     fails = []
+    fam = family(case)
     if "error" in io:
         return [{"what": "exception", "impl": io["error"][1:]}]
-    n_app = len([a for a in case["_axes"] if a["role"] != "mr_sel"])
     parts = io["parts"]
     sv = case["_sv"]
-    oracle = cu.Oracle(sv, case["_axes"])
+    oracle = cu.Oracle(sv, case["_axes"]) if fam in ("std", "typed") else None
+    na = sh.NumArrOracle(case) if fam == "numarr" else None
+    nub = sh.nub_expected(case) if fam == "nub" else None
     use_oracle = not has_valid_counts(case)
+    cube = io["cube"]
+    if cube[0] != "ok":
+        fails.append({"what": "Cube", "impl": cube[1:]})
     for (kind, _t), toks in zip(terms, results):
         if kind == "slices":
             model = cu.dec_cube_slices(toks)
-            if len(model) != len(parts):
-                fails.append({"what": "n_partitions", "impl": len(parts), "model": len(model)})
+            if len(model) != len(parts) or any(t != "_Slice" for t in io["types"]):
+                fails.append({"what": "n_partitions", "impl": len(parts), "impl_kinds": io["types"],
+                              "model": len(model), "model_kind": "_Slice"})
                 continue
             for k, (mp, ip) in enumerate(zip(model, parts)):
                 for name, key in (("counts", "w"), ("unweighted_counts", "u")):
@@ -82,16 +160,22 @@ def compare(case, io, terms, results):
                     d = cu.mat_mismatch(r[1], mp[key]["counts"], name)
                     if d:
                         fails.append(dict(d, part=k, oracle="model"))
-                    if use_oracle:
+                    if oracle is not None and use_oracle:
                         weighted = (key == "w") and sv.weighted
                         exp = oracle.slice_cells(k, "in", "in", weighted)
                         d = cu.mat_mismatch(r[1], exp, name)
                         if d:
                             fails.append(dict(d, part=k, oracle="survey"))
+                    if na is not None:
+                        exp = nanify(na.partition(k, numarr_count_key(case, name)))
+                        d = cu.mat_mismatch(r[1], exp, name)
+                        if d:
+                            fails.append(dict(d, part=k, oracle="survey"))
         elif kind == "strands":
             model = cu.dec_cube_strands(toks)
-            if len(model) != len(parts):
-                fails.append({"what": "n_partitions", "impl": len(parts), "model": len(model)})
+            if len(model) != len(parts) or any(t != "_Strand" for t in io["types"]):
+                fails.append({"what": "n_partitions", "impl": len(parts), "impl_kinds": io["types"],
+                              "model": len(model), "model_kind": "_Strand"})
                 continue
             for k, (mp, ip) in enumerate(zip(model, parts)):
                 for name, key in (("counts", "w"), ("unweighted_counts", "u")):
@@ -102,45 +186,103 @@ def compare(case, io, terms, results):
                     d = cu.mat_mismatch(r[1], mp[key]["counts"], name)
                     if d:
                         fails.append(dict(d, part=k, oracle="model"))
-                    if use_oracle:
+                    if oracle is not None and use_oracle:
                         weighted = (key == "w") and sv.weighted
                         exp = oracle.strand_cells(k, "in", weighted, ca0=bool(case.get("ca_as_0th")))
+                        d = cu.mat_mismatch(r[1], exp, name)
+                        if d:
+                            fails.append(dict(d, part=k, oracle="survey"))
+                    if na is not None:
+                        exp = nanify(na.partition(k, numarr_count_key(case, name)))
                         d = cu.mat_mismatch(r[1], exp, name)
                         if d:
                             fails.append(dict(d, part=k, oracle="survey"))
         elif kind.startswith("num:"):
             pub = kind[4:]
             model = cu.dec_passthrough(toks)
+            if len(model) != len(parts):
+                continue   # reported by the 'slices' term
             for k, (mm, ip) in enumerate(zip(model, parts)):
-                r = ip[pub]
+                r = ip.get(pub, ("exc", "not a slice", ""))
                 if r[0] != "ok":
                     fails.append({"what": pub, "part": k, "impl": r[1:]})
                     continue
                 d = cu.mat_mismatch(r[1], mm, pub)
                 if d:
                     fails.append(dict(d, part=k, oracle="model"))
+                if na is not None:
+                    d = cu.mat_mismatch(r[1], nanify(na.partition(k, NA_KEY[pub])), pub)
+                    if d:
+                        fails.append(dict(d, part=k, oracle="survey"))
         elif kind.startswith("snum:"):
             pub = kind[5:]
-            mv = core.Dec(toks).opt(core.Dec(toks).vec) if False else None
             d0 = core.Dec(toks)
             mv = d0.opt(d0.vec)
-            r = parts[0][pub]
+            r = parts[0].get(pub, ("exc", "not a strand", "")) if parts else ("exc", "no partition", "")
             if r[0] != "ok":
                 fails.append({"what": pub, "impl": r[1:]})
             else:
                 d = cu.mat_mismatch(r[1], mv, pub)
                 if d:
                     fails.append(dict(d, oracle="model"))
+                if na is not None:
+                    d = cu.mat_mismatch(r[1], nanify(na.partition(0, NA_KEY[pub])), pub)
+                    if d:
+                        fails.append(dict(d, oracle="survey"))
         elif kind.startswith("valid:"):
             name = kind[6:]
             mv = core.Dec(toks).vec()
-            r = io["cube"]
-            if r[0] != "ok":
+            if cube[0] != "ok":
+                continue
+            r = cube[1][name]
+            if r[0] != "ok" or r[1] is None:
                 fails.append({"what": "Cube." + name, "impl": r[1:]})
-            else:
-                flat = np.asarray(r[1][name], dtype=float).flatten().tolist()
-                if not core.close_vec(flat, mv):
-                    fails.append({"what": "Cube." + name, "impl": flat, "model": mv})
+                continue
+            flat = np.asarray(r[1], dtype=float).flatten().tolist()
+            if len(flat) != len(mv) or not core.close_vec(flat, mv):
+                fails.append({"what": "Cube." + name, "impl": flat, "model": mv, "oracle": "model"})
+            if na is not None and all(a["role"] != "mr_sel" for a in case["_axes"]):
+                key = NA_KEY.get(name) or numarr_count_key(case, name)
+                exp = nanify(na.cube(key))
+                if len(flat) != len(exp) or not core.close_vec(flat, exp):
+                    fails.append({"what": "Cube." + name, "impl": flat, "expected": exp,
+                                  "oracle": "survey"})
+            if nub is not None:
+                if len(flat) != 1 or not core.close(flat[0], nub[name]):
+                    fails.append({"what": "Cube." + name, "impl": flat, "expected": nub[name],
+                                  "oracle": "survey"})
+                pname = {"means": "means", "unweighted_counts": "unweighted_count"}.get(name)
+                if pname:
+                    if io["types"] != ["_Nub"]:
+                        fails.append({"what": "n_partitions", "impl_kinds": io["types"],
+                                      "model_kind": "_Nub"})
+                    else:
+                        pr = parts[0][pname]
+                        if pr[0] != "ok" or pr[1] is None or not core.close(float(pr[1]), mv[0]):
+                            fails.append({"what": "_Nub." + pname, "impl": pr[1:], "model": mv[0],
+                                          "oracle": "model"})
+                        elif not core.close(float(pr[1]), nub[name]):
+                            fails.append({"what": "_Nub." + pname, "impl": pr[1], "expected": nub[name],
+                                          "oracle": "survey"})
+        elif kind == "types":
+            ts, ks = sh.dec_types(toks)
+            apparent = [t for t in ts if t != "MR_CAT"]
+            want = sh.expected_types(case)
+            want_k = [cu.ROLE_DK[a["role"]] for a in case["_axes"]]
+            if [sh.type_class(t) for t in apparent] != want or ks != want_k:
+                # the rule (as modelled) does not give the generator's variables their kinds:
+                # a harness / model inconsistency, the implementation is not involved
+                fails.append({"what": "type rule (Coq) vs kinds of the survey's variables",
+                              "model_types": ts, "model_kinds": ks, "survey": want,
+                              "survey_kinds": want_k, "no_impl": True})
+            if cube[0] == "ok":
+                it = cube[1]["dimension_types"]
+                if it != apparent:
+                    fails.append({"what": "dimension_types", "impl": it, "model": apparent,
+                                  "oracle": "model"})
+                if [sh.type_class(t) for t in it] != want:
+                    fails.append({"what": "dimension_types", "impl": it, "expected": want,
+                                  "oracle": "survey"})
         elif kind == "tabulate":
             mv = core.Dec(toks).vec()
             exp = cu.natural_weighted_tensor(case)
@@ -162,8 +304,19 @@ def nontrivial(case):
     return len(sv.resp) > 0
 
 
+def case_class(case):
+    fam = family(case)
+    if fam == "numarr":
+        return sh.numarr_class(case)
+    if fam == "nub":
+        return "Nub"
+    return cu.class_pair(case)
+
+
 def describe(rep, case):
-    rep.dist("class=" + cu.class_pair(case))
+    fam = family(case)
+    rep.dist("family=" + fam)
+    rep.dist("class=" + case_class(case))
     sv = case["_sv"]
     rep.dist("weighted" if sv.weighted else "unweighted")
     ap = [a for a in case["_axes"] if a["role"] != "mr_sel"]
@@ -175,41 +328,82 @@ def describe(rep, case):
         rep.dist("permuted_axes")
     if has_valid_counts(case):
         rep.dist("valid_counts")
+    if "valid_count_weighted" in case["response"]["result"]["measures"]:
+        rep.dist("valid_counts_weighted")
     if case["numvar"]:
         rep.dist("numeric_measures")
     if any(w["w"] != "1" and "/" in w["w"] for w in case["survey"]["resp"]):
         rep.dist("fractional_weights")
     if any(w["w"] == "0" for w in case["survey"]["resp"]):
         rep.dist("zero_weights")
+    if fam == "numarr":
+        rep.dist(case["shape_class"])
+        g = [a for a in ap if a["role"] != "numarr"]
+        n = len(case["items"])
+        if g:
+            if all(len(cu.valid_positions(a["missing"])) == n for a in g):
+                rep.dist("numarr:square_valid")
+            if all(len(a["missing"]) == n for a in g):
+                rep.dist("numarr:square_payload")
+            if not any(any(a["missing"]) for a in case["_axes"]):
+                rep.dist("numarr:no_missing_element_anywhere")
+            else:
+                rep.dist("numarr:missing_grouping_elements")
+        for m in case["measures"]:
+            rep.dist("numarr:" + m)
+        cells = case["response"]["result"]["measures"][case["measures"][0]]["data"]
+        if any(isinstance(x, dict) for x in cells):
+            rep.dist("numarr:unavailable_cells")
+    if fam == "typed":
+        for m in case.get("modes", []):
+            rep.dist("typed:" + m)
+
+
+def gen_cases(tier, seed):
+    """the std cases come first and from their own stream, so that they are the cases the check
+    always ran; the new families draw from streams of their own"""
+    n_std, n_na, n_nub, n_typed = (260, 150, 24, 130) if tier == "quick" else (4000, 2400, 200, 2000)
+    rng = random.Random(seed)
+    cases = [cu.gen_case(rng, k) for k in range(n_std)]
+    rng_na = random.Random(seed * 7 + 1)
+    forced = ["alone", "cat", "mr", "catcat", "four"]
+    cases += [sh.gen_numarr_case(rng_na, n_std + k, shape=forced[k] if k < len(forced) else None)
+              for k in range(n_na)]
+    rng_nub = random.Random(seed * 7 + 2)
+    cases += [sh.gen_nub_case(rng_nub, n_std + n_na + k) for k in range(n_nub)]
+    rng_t = random.Random(seed * 7 + 3)
+    cases += [sh.gen_typed_case(rng_t, n_std + n_na + n_nub + k) for k in range(n_typed)]
+    return cases
 
 
 def run(tier, seed):
     rep = core.Report(PID, tier, seed)
     ob = core.obligations_gate(rep, PID)
-    n_cases = 260 if tier == "quick" else 4000
-    rng = random.Random(seed)
-    cases, ios, allterms, flat = [], [], [], []
-    for k in range(n_cases):
-        case = cu.gen_case(rng, k)
+    cases, ios, allterms, flat = gen_cases(tier, seed), [], [], []
+    for case in cases:
+        k = case["k"]
         with_tab = case["perm"] is None and (k % 3 == 0) and len(case["_sv"].resp) <= 25
         io, terms = build(case, with_tab)
-        cases.append(case)
         ios.append(io)
         allterms.append(terms)
         flat.extend(t for (_k, t) in terms)
-    results, coq_s = core.run_coq_cases(PID, cu.IMPORTS, flat, shard=60) if flat else ([], 0.0)
+    results, coq_s = core.run_coq_cases(PID, sh.IMPORTS, flat, shard=60) if flat else ([], 0.0)
     pos = 0
     for case, io, terms in zip(cases, ios, allterms):
         res = results[pos:pos + len(terms)]
         pos += len(terms)
         rep.count_case(cu.replayable(case), nontrivial(case))
         describe(rep, case)
+        for (kind, _t), toks in zip(terms, res):
+            if kind == "types":
+                for t in sh.dec_types(toks)[0]:
+                    rep.dist("type=" + t)
         if nontrivial(case):
-            rep.sample({"class": cu.class_pair(case), "aliases": case["aliases"],
+            rep.sample({"class": case_class(case), "aliases": case["aliases"],
                         "perm": case["perm"], "n_resp": len(case["_sv"].resp),
                         "measures": case["measures"]})
         for f in compare(case, io, terms, res):
-            ctx = {"what": f.get("what"), "class": cu.class_pair(case)}
+            ctx = {"what": f.get("what"), "class": case_class(case)}
             rep.violation("impl-vs-model" if f.get("oracle") != "survey" else "impl-vs-survey",
                           cu.replayable(case), f, ctx, failing_input=not f.get("no_impl"))
     rep.cov["rule"] = (
@@ -218,13 +412,26 @@ def run(tier, seed):
         "ca / datetime / text / binned enum; missing categories anywhere in the payload; response "
         "dimensions in natural or permuted order (reaching the Cat/Mr/Arr class pairs), 1-D strands, "
         "CA-as-0th strands, 2-D and 3-D; optional mean/sum/stddev/median with unavailable cells and "
-        "valid-count measures. non-trivial = at least one respondent; distinct by content hash")
+        "valid-count measures.  PLUS numeric arrays of 1-4 numeric items (value or none per respondent): "
+        "alone (1-D), by a categorical / cat-date / datetime / text / binned variable or an MR (2-D), by "
+        "two categorical-like variables (3-D), by three grouping axes (known finding), 75% square (as many "
+        "valid grouping elements as items), grouping variables with and without missing elements, "
+        "mean/sum/stddev/median + valid_count_unweighted (+ weighted); the 0-D nub (numeric measure over "
+        "everybody, with / without count and valid-count measures); and 'typed' cubes: arrays and "
+        "categoricals with ids 1,0,-1 (no selected flag / selected:false / flagged = LOGICAL), a flag on "
+        "other ids or orders, 'date' on some categories, MR selection dimensions spelled differently.  "
+        "non-trivial = at least one respondent; distinct by content hash")
     rep.cov["coq_eval_seconds"] = round(coq_s, 2)
     rep.cov["model_terms_evaluated"] = len(flat)
     rep.assumptions = [
         "the survey-level theorems cover categorical (incl. enum) and MR dimensions; class pairs with a "
         "categorical-array dimension are covered by model-vs-implementation and the survey oracle only",
-        "numeric arrays are not generated",
+        "numeric arrays: the response always carries valid_count_unweighted (as every response of the "
+        "server does; without it the library cannot build a numeric-array partition at all) and has the "
+        "array item as last axis of every measure; theorems are about the layout (any per-cell statistic), "
+        "the respondent-level value of the statistic is the Python oracle's",
+        "numeric arrays by three grouping axes are an OPEN FINDING (C01-numarr-four-axes), reported as "
+        "KNOWN-FINDING",
         "float64 vs exact rationals: relative tolerance 1e-9",
     ]
     return rep.finish("proof", ob, trusted_base=core.TRUSTED_BASE_COMMON + [
@@ -232,6 +439,9 @@ def run(tier, seed):
         "(counts of the nine class pairs through the factory dict, type strings, _slice_idx_expr, factory "
         "arguments, pass-through measure classes, stripe counts + stripe factory) are ALSO tied to the text of "
         "matrix/cubemeasure.py and stripe/cubemeasure.py by the C01_gen_* obligations (Proofs/GenAgreeCounts.v)",
+        "Model/DimType.v (dimension-type rule) and the numeric-array part of Model/CubeCounts.v "
+        "(dimension_order, raw_shape, take_valid_ord; named in Model/NumArray.v) are hand-written and tied to "
+        "dimension.py / cube.py by this correspondence run only (cube.dimension_types; every public value)",
         core.TRUSTED_BASE_TRANSLATOR,
         "Spec/Survey.v tabulate is validated against harness.gen.tabulate on every third natural-order case"])
 
@@ -241,9 +451,9 @@ def replay(path):
     if d["violation"].get("kind") in core.OBLIGATION_KINDS:  # a broken obligation, no input to re-run
         return core.replay_obligations(PID, d)
     case = d["violation"]["case"]
-    cu.finish_case(case)
+    finish_case(case)
     io, terms = build(case, case["perm"] is None)
-    results, _ = core.run_coq_cases(PID, cu.IMPORTS, [t for (_k, t) in terms], tag="replay")
+    results, _ = core.run_coq_cases(PID, sh.IMPORTS, [t for (_k, t) in terms], tag="replay")
     fails = compare(case, io, terms, results)
     for f in fails:
         print("REPLAY still fails:", json.dumps(core.jsonable(f))[:600])
